@@ -839,9 +839,23 @@ def extra_programs():
         mk("parquet_arrow_ne", lambda t: (lambda r: r[r.c != 1.0])(_parquet()), noindex=True),
         mk("parquet_arrow_ne_or", lambda t: (lambda r: r[(r.c != 1.0) | (r.b == 2)][["a", "c"]])(_parquet()), noindex=True),
         mk("parquet_arrow_gt_proj", lambda t: (lambda r: r[r.a > 3][["b"]])(_parquet()), noindex=True),
+        # two same-sized partition selections of ONE from_pandas source with unknown divisions (rows per partition 3,3,2):
+        # sizes / lengths are answered from the reader's metadata for each selection separately
+        mk("two_selection_sizes_unsorted", lambda t: (lambda d: d.partitions[0].a.size + d.partitions[2].a.size)(_unsorted_source())),
+        mk("two_selection_lens_unsorted", lambda t: (lambda d: _len_expr(d.partitions[[0]][["b"]]) + _len_expr(d.partitions[[2]][["b"]]))(_unsorted_source())),
+        mk("selection_size_minus_whole", lambda t: (lambda d: d.a.size - d.partitions[[2, 1]].a.size)(_unsorted_source())),
     ]
     _EXTRA = out
     return out
+
+
+def _unsorted_source():
+    """from_pandas over a non-monotonic index, sort=False: unknown divisions, partitions of 3, 3 and 2 rows"""
+    import dask_expr as dx
+
+    pdf = e2e.T_int()
+    pdf.index = [5, 3, 7, 1, 6, 0, 4, 2]
+    return dx.from_pandas(pdf, npartitions=3, sort=False)
 
 
 def _own(pdf, cuts):
@@ -1109,7 +1123,7 @@ def _frag_support_cases(ctx, broken):
     cases += [{"frag": n, "stages": plans.STAGES if (frag_broken or not ctx.quick) else ["simplified-logical", "fused"]}
               for n, _ in frag_fixed_queries()]
     n_rand = (400 if frag_broken else 0) if ctx.quick else 1500
-    cases += [{"frag": f"seed{ctx.seed * 100003 + i}/d{1 + i % 4}", "stages": ["simplified-logical", "fused"]} for i in range(n_rand)]
+    cases += [{"frag": f"vseed{ctx.seed * 100003 + i}/d{1 + i % 4}", "stages": ["simplified-logical", "fused"]} for i in range(n_rand)]
     return cases
 
 
@@ -1635,13 +1649,14 @@ def frag_apply(rng, op, x, depth, mk):
     raise ValueError(op)
 
 
-def frag_random_query(rng, depth):
+def frag_random_query(rng, depth, ops=None):
     srcs = _frag_sources()
+    ops = ops or _FRAG_OPS
 
     def mk(d):
         x = rng.choice(srcs)
         for _ in range(d):
-            x = frag_apply(rng, rng.choice(_FRAG_OPS), x, d, mk)
+            x = frag_apply(rng, rng.choice(ops), x, d, mk)
         return x
 
     x = mk(depth)
@@ -1761,11 +1776,21 @@ def _frag_run_seed(args):
     return _frag_case((f"seed{seed}/d{depth}", q))
 
 
+# the end-to-end space: every value an Assign receives and every predicate is computed from the very frame it is applied to
+# (`assign_base` takes it from the source below a filter / join / concat: rows are then matched by index labels, through a
+# shuffle whose row order is unspecified, or hit the open finding D51 on an emptied partition)
+_FRAG_OPS_E2E = [o for o in _FRAG_OPS if o != "assign_base"]
+
+
 def frag_query_by_name(name):
-    """'seed<k>/d<depth>' or the name of a hand-written query -> zero-argument builder of the collection"""
+    """'seed<k>/d<depth>' (family generator), 'vseed<k>/d<depth>' (end-to-end generator) or the name of a hand-written
+    query -> zero-argument builder of the collection"""
     if name.startswith("seed"):
         seed, depth = name[4:].split("/d")
         return lambda: frag_random_query(random.Random(int(seed)), int(depth))
+    if name.startswith("vseed"):
+        seed, depth = name[5:].split("/d")
+        return lambda: frag_random_query(random.Random(int(seed)), int(depth), _FRAG_OPS_E2E)
     for n, q in frag_fixed_queries():
         if n == name:
             return q
